@@ -558,10 +558,10 @@ ITEMS += [
 def _ctor_site(src, fn, kind, policy):
     if kind == 'str':
         frag = r'let (mut )?src = LiveEvents::from_str\([^;]*?\);'
-        wrap = "fn build_source_%s<'a>(input: &'a str, options: EntryOptions) -> LiveEvents<'a> { {FRAG} src }" % fn
+        wrap = "fn build_source_%s<'a>(input: &'a str, options: Options) -> LiveEvents<'a> { {FRAG} src }" % fn
     else:
         frag = r'let (mut )?src = LiveEvents::from_reader\([^;]*?\);'
-        wrap = "fn build_source_%s<'a>(reader: ByteReader, ring_handle: ByteReader, options: EntryOptions) -> LiveEvents<'a> { {FRAG} src }" % fn
+        wrap = "fn build_source_%s<'a>(reader: ByteReader, ring_handle: ByteReader, options: Options) -> LiveEvents<'a> { {FRAG} src }" % fn
     ens = [('C09:every_entry_point_reads_on_past_the_document_end_so_that_a_following_document_is_reported_the_same_way', '!r.stop_at_doc_end'),
            ('C09:the_alias_limits_of_the_options_reach_the_event_source_unchanged', 'r.alias_limits == options.alias_limits'),
            ('C09:the_budget_of_the_options_reaches_the_event_source_unchanged',
@@ -700,4 +700,13 @@ def _valid_batch(fn, feature, validate_re, error_re, errvar):
 ITEMS += [
     _valid_batch('from_multiple_with_options_valid', 'garde', r'Validate::validate\(&value\)', r'Error::ValidationError \{\s*report,\s*locations: recorder\.map,\s*\}', 'report'),
     _valid_batch('from_multiple_with_options_validate', 'validator', r'ValidatorValidate::validate\(&value\)', r'Error::ValidatorError \{\s*errors,\s*locations: recorder\.map,\s*\}', 'errors'),
+]
+# ---- C09 / C06: every entry point derives the deserializer configuration from the options through this one function ----
+ITEMS += [
+    dict(src='src/options.rs', path='struct Options', derive=''),
+    dict(src=D, path='impl Cfg/fn from_options', props=['C09', 'C06', 'C04'],
+         ensures=[('C09:the_configuration_is_the_options_field_for_field', '''r.dup_policy == options.duplicate_keys && r.legacy_octal_numbers == options.legacy_octal_numbers
+                && r.strict_booleans == options.strict_booleans && r.angle_conversions == options.angle_conversions
+                && r.ignore_binary_tag_for_string == options.ignore_binary_tag_for_string && r.no_schema == options.no_schema''')],
+         canaries=['C09:the_configuration_is_the_options_field_for_field']),
 ]
